@@ -39,7 +39,7 @@ def gen_knobs(rng, cls):
         'read_chunk': rng.choice([1, 3, 16, 1 << 20, 1 << 20]),
         'short_len': rng.choice([1, 2, 5]),
         'default_encoding': rng.choice(['ascii', 'latin-1', 'utf-16', 'cp1252']),
-        'alphabet': rng.choice(['ascii', 'mixed', 'mixed', 'mixed']),
+        'alphabet': rng.choice(['ascii', 'mixed', 'mixed', 'mixed', 'lookalike', 'lookalike', 'numlike']),
         'fmts': rng.choice([['json'], ['yaml'], ['json', 'yaml'], ['json', 'yaml']]),
         'wrapper_encoding': rng.choice(['utf-8', 'latin-1', 'utf-16', 'ascii', 'utf-8']),
         'wrapper_newline': rng.choice([None, '', '\n', '\r\n']),
@@ -53,16 +53,22 @@ def gen_json_opts(rng):
     return {'indent': rng.choice([None, None, 0, 1, 2, 4, 8, '\t', '  ']), 'sort_keys': rng.random() < 0.3}
 
 
-def gen_yaml_opts(rng):
+def gen_yaml_opts(rng, bare=False):
     o = {}
+    if bare and rng.random() < 0.6:
+        # a bare document (no '---', no '...'): the text starts with the value itself
+        o['explicit_start'] = False
+        if rng.random() < 0.5:
+            o['default_flow_style'] = rng.choice([None, True])
+        return o
     if rng.random() < 0.4:
         o['indent'] = rng.choice([None, 2, 3, 4, 8])
     if rng.random() < 0.4:
         o['width'] = rng.choice([None, 5, 20, 80, 200])
     if rng.random() < 0.5:
         o['allow_unicode'] = rng.random() < 0.5
-    if rng.random() < 0.3:
-        o['explicit_start'] = rng.random() < 0.7
+    if rng.random() < 0.45:
+        o['explicit_start'] = rng.random() < 0.5
     if rng.random() < 0.3:
         o['explicit_end'] = rng.random() < 0.5
     if rng.random() < 0.4:
@@ -110,6 +116,11 @@ def gen_plan(seed: int, cls: str) -> dict:
         plain = [n for (n, s) in world.class_specs.items() if not s.get('tv')]
         if plain and r < 0.5:
             ast = ['cls', ro.choice(plain)]
+        elif knobs['alphabet'] in ('lookalike', 'numlike') and r < 0.85:
+            # scalar-resolution stress: plain containers of strings, where the emitter/parser pair alone decides
+            ast = ro.choice([['list', ['s', 'str']], ['tvtuple', ['s', 'str']], ['dict', ['s', 'str'], ['s', 'str']],
+                             ['list', ['list', ['s', 'str']]], ['s', 'str'], ['tuple', ['s', 'str'], ['s', 'str']],
+                             ['list', ['s', 'any']], ['dict', ['s', 'str'], ['list', ['s', 'str']]], ['opt', ['s', 'str']]])
         else:
             ast = tg.gen_type(ro, world, kinds, C19_SCALARS, max_depth=3)
         custom = ro.choice(custom_specs)
@@ -138,7 +149,7 @@ def gen_plan(seed: int, cls: str) -> dict:
             vi = ro.randrange(len(values))
             via = 'string' if sink == 'str0' else ro.choice(['func', 'func', 'method'])
             op = {'op': 'write', 'sink': sink, 'val': vi, 'fmt': fmt, 'via': via,
-                  'opts': gen_json_opts(ro) if fmt == 'json' else gen_yaml_opts(ro),
+                  'opts': gen_json_opts(ro) if fmt == 'json' else gen_yaml_opts(ro, knobs['alphabet'] in ('numlike', 'lookalike')),
                   'pathkind': ro.choice(['str', 'Path']), 'passty': ro.random() < 0.8,
                   'append': (fmt == 'yaml' and sink in SINKS_STREAM and ro.random() < 0.6)}
             written.add(sink)
